@@ -242,7 +242,7 @@ void runCase(uint64_t c, rt::Rng rng) {
             ++C.runnables;
             break;
     }
-    } catch (const std::system_error &) { threw = true; }
+    } catch (...) { threw = true; }   // (the kind of exception is not part of the statement)
     if (failCreate) {
         ++C.creationFailuresInjected;
         if (!threw) {
@@ -258,7 +258,7 @@ void runCase(uint64_t c, rt::Rng rng) {
 #endif
         return;
     }
-    if (threw) { fail("start-threw", kn[kind], "start() threw std::system_error although thread creation was not made to fail"); return; }
+    if (threw) { fail("start-threw", kn[kind], "start() threw although thread creation was not made to fail"); return; }
     uint64_t startReturned = stampNow();
     sh.runExitBeforeStartReturned = sh.doneStamp.load() != 0 && sh.doneStamp.load() < startReturned;
     // the starter keeps using its stack: everything start() left behind is overwritten
@@ -284,7 +284,7 @@ void runCase(uint64_t c, rt::Rng rng) {
         ++C.detached;
         t->std_thread().detach();
         bool joinThrew = false;
-        try { t->join(); } catch (const std::system_error &) { joinThrew = true; }
+        try { t->join(); } catch (...) { joinThrew = true; }
         if (!joinThrew && !sh.done.load()) fail("join-before-return", "join-after-detach", "join() on a detached Thread returned normally while the callable was still running");
         // the detached body still writes into `local` and `sh`: wait for it (bounded by logical steps once the callable returned)
         for (unsigned grace = 0; !t->isFinished() && grace < 20000;) { if (sh.done.load()) ++grace; usleep(50); }
